@@ -196,3 +196,14 @@ Definition upd_dens (e c : Z) (n : Q) (comp : composition) : composition := map 
 (* the coefficient of a thermal-CX donor: PEC_d(ne, te, T_d) *)
 Definition tcx_coef (P : provider) (l : line) (ne te : Q) (d : species) : Q :=
   tcx_pec P (s_elem d) (s_charge d) (l_elem l) (l_charge l + 1) (l_trans l) ne te (s_temp d).
+
+(* ---------------------------------------------------------------------------------------- *)
+(* one model instance evaluated at a sequence of points                                     *)
+(* ---------------------------------------------------------------------------------------- *)
+(* The modelled emission has no state: evaluating an instance at a sequence of plasma points is the map of the
+   single-point function.  (In the code the instance caches _populate_cache results and, for bremsstrahlung, the charge
+   and density arrays of its BremsFunction; that they do not leak from one point to the next is what the
+   correspondence checks on sequences.) *)
+Record ppoint := mkPoint { pt_ne : Q; pt_te : Q; pt_comp : composition }.
+Definition emission_seq {B} (emit : Q -> Q -> composition -> B) (pts : list ppoint) : list B :=
+  map (fun p => emit (pt_ne p) (pt_te p) (pt_comp p)) pts.
